@@ -2,8 +2,8 @@
    Part (a): Display, capacity and alignment never panic.  (Generation: C13g.v with the generator
    model; compilation is rustc's and is covered by execution, see DESIGN.md.) *)
 From Coq Require Import List NArith Lia.
-From Truc.Model Require Import Layout Builder.
-From Truc.Proofs Require Import Variants BuilderInv LayoutThms Panics Bound.
+From Truc.Model Require Import Layout Builder Ir Gen.
+From Truc.Proofs Require Import Variants BuilderInv LayoutThms Panics Bound GenP.
 Import ListNotations.
 Open Scope N_scope.
 
@@ -30,6 +30,13 @@ Theorem C13a_requests : forall h, hist_ok h -> hbound h <= MAXU ->
   display (b_ds b, b_vs b) <> None /\ max_size (b_ds b, b_vs b) <> None.
 Proof. intros h Hh Hb. apply C13a; auto. apply fits_of_bound; auto. Qed.
 Print Assumptions C13a_requests.
+
+(* part (b), generation: the generator model (None = panic: a variant naming an unknown datum, capacity
+   overflow) answers for every definition the builder produces and every fragment selection.  That rustc
+   accepts the module is rustc's: executed by E3 (all fragments) and E5 (5 selections). *)
+Theorem C13b_gen : forall h cfg, hist_ok h -> hbound h <= MAXU -> gen (b_ds (run h), b_vs (run h)) cfg <> None.
+Proof. exact gen_total. Qed.
+Print Assumptions C13b_gen.
 
 (* on the model of the code before the two fixes, both panics exist *)
 Example C13a_refuted_unfixed :
